@@ -21,7 +21,7 @@ RULE = ('(a) generated block bodies (reads/sets/replaces/deletes/pops/pulls/incr
         'evaluations = (body, raise point) executions + schedules; distinct_nontrivial = distinct (container, '
         'exception type, operation mix at the raise point) cells + distinct schedules with a preemption inside a block')
 DISTINCT = ('abort_cells', 'block_schedules', 'block_plan_schedules')
-REQUIRED = ('block_schedules_through_a_sharded_cache', 'block_plan_schedules_judged', 'aborts_judged', 'commits_judged', 'nested_blocks', 'aborted_after_file_removal', 'aborted_after_file_write',
+REQUIRED = ('calls_failing_inside_blocks', 'blocks_with_failing_calls_committed', 'blocks_with_failing_calls_abandoned', 'block_schedules_through_a_sharded_cache', 'block_plan_schedules_judged', 'aborts_judged', 'commits_judged', 'nested_blocks', 'aborted_after_file_removal', 'aborted_after_file_write',
             'deque_blocks', 'index_blocks', 'fanout_blocks', 'block_schedules_run', 'snapshot_reads',
             'foreign_thread_attempts', 'blocks_whose_commit_had_to_wait')
 ASSUMPTIONS = ('the reference model is flat: only the outermost block exit decides commit or rollback',
@@ -765,6 +765,92 @@ def block_commit_waiting(dc, sc, res, rng, label):
         sc.drop(d)
 
 
+def failing_calls_in_blocks(dc, sc, res, rng, kind, label):
+    """A call that FAILS inside a block, with the body catching the error and going on: the failed call must have no
+    effect at all (also on the value files of the rows it did not change), whether the block then commits or is
+    abandoned (seeded/C06-11: the superseded file queued for removal before the row update that fails)."""
+    import warnings
+    d = sc.new()
+    cache = dc.Cache(d, disk_min_file_size=T) if kind == 'cache' else dc.FanoutCache(d, shards=2, disk_min_file_size=T)
+    keys = ['a', 'b', 'c', 'd', 'e']
+    model = {}
+    serial = [0]
+
+    def val():
+        serial[0] += 1
+        big = rng.random() < 0.7
+        tag = 'v%d;' % serial[0]
+        return tag * ((T // len(tag)) + 2) if big else tag
+
+    try:
+        for k in keys:
+            if rng.random() < 0.8:
+                model[k] = val()
+                cache.set(k, model[k])
+        for blk in range(6):
+            commit = rng.random() < 0.6
+            pending = dict(model)
+            try:
+                with cache.transact():
+                    for _ in range(rng.randrange(1, 5)):
+                        k = rng.choice(keys)
+                        r = rng.random()
+                        if r < 0.3:
+                            pending[k] = val()
+                            cache.set(k, pending[k])
+                        elif r < 0.4:
+                            pending.pop(k, None)
+                            cache.delete(k)
+                        else:
+                            how = rng.choice(['set with a tag that cannot be bound', 'add with a tag that cannot be bound',
+                                              'incr of a text value', 'pop of a missing key', 'touch with a bad expire'])
+                            try:
+                                if how.startswith('set'):
+                                    cache.set(k, val(), tag=object())
+                                elif how.startswith('add'):
+                                    cache.add(k, val(), tag=object())
+                                elif how.startswith('incr'):
+                                    if k not in pending:
+                                        continue
+                                    cache.incr(k)
+                                elif how.startswith('pop'):
+                                    cache.pop('missing-%d' % blk, default=None, tag=object(), expire_time=True)
+                                    continue
+                                else:
+                                    cache.touch(k, expire='never')
+                            except Exception:                   # the body catches whatever the call raised
+                                res.count('calls_failing_inside_blocks')
+                                res.seen('abort_cells', (kind, 'failing call caught by the body', how, k in pending, commit))
+                            else:
+                                if how.startswith('add') and k in pending:
+                                    pass                        # add over a present key returns False before binding
+                                elif how.startswith(('set', 'add')):
+                                    raise AssertionError('harness: %s did not fail' % how)
+                    if not commit:
+                        raise Boom()
+                model = pending
+            except Boom:
+                pass
+            res.count('evaluations')
+            res.count('blocks_with_failing_calls_' + ('committed' if commit else 'abandoned'))
+            got = {k: cache.get(k, '<MISSING>') for k in keys}
+            want = {k: model.get(k, '<MISSING>') for k in keys}
+            with warnings.catch_warnings(record=True) as caught:
+                warnings.simplefilter('always')
+                cache.check()
+            damage = [str(w.message)[:120] for w in caught if 'empty directory' not in str(w.message).lower()]
+            if got != want or damage:
+                bad = sorted(k for k in keys if got[k] != want[k])
+                res.violation('after a block in which calls failed and were caught by the body (%s cache, block %s): keys %r '
+                              'read %r, expected %r; check() reports %r' % (
+                                  kind, 'committed' if commit else 'abandoned', bad, [str(got[k])[:24] for k in bad],
+                                  [str(want[k])[:24] for k in bad], damage[:3]), {'label': label}, signature=None)
+                return
+    finally:
+        cache.close()
+        sc.drop(d)
+
+
 def run_shard(tier, seed, shard, nshards, res):
     dc = common.use_repo()
     probe.install()
@@ -780,6 +866,10 @@ def run_shard(tier, seed, shard, nshards, res):
                 trial_container(dc, sc, res, rng, kind, label)
             if res.new_violations() > 8:
                 return
+        for i in range(10 if tier == 'quick' else 100):
+            rng = common.rng_for(seed, 'c06f', shard, i)
+            failing_calls_in_blocks(dc, sc, res, rng, ['cache', 'fanout'][i % 2],
+                                    'c06 failing calls seed=%d shard=%d i=%d' % (seed, shard, i))
         for i in range(6 if tier == 'quick' else 60):
             rng = common.rng_for(seed, 'c06w', shard, i)
             block_commit_waiting(dc, sc, res, rng, 'c06 commit waiting seed=%d shard=%d i=%d' % (seed, shard, i))
